@@ -1,6 +1,6 @@
 #!/bin/bash
 # run every claimed check once (quick tier) with the given seed; one line per check
-cd /verif
+cd "$(dirname "$0")/.."
 for P in $(python3 -c "import json;print(' '.join(c['property_id'] for c in json.load(open('MANIFEST.json'))['checks']))"); do
   t0=$(date +%s); out=$(./check $P --tier ${TIER:-quick} 2>&1); rc=$?; t1=$(date +%s)
   echo "$P rc=$rc $((t1-t0))s $(echo "$out" | grep -v '^KNOWN' | tail -1 | cut -c1-140)"
